@@ -57,6 +57,18 @@ RhsSum(rhs, dist, i) ==
 MomentOuts(p, outs) ==
     FoldSet(LAMBDA i, acc : SAdd(acc, SMul(outs[i].w, Eval(p, outs[i].s))), SZero, 1..Len(outs))
 
+\* goal quantities as the CLI knows them: raw moment of a polynomial, k-th central moment, k-th cumulant
+GoalVal(g, dist) ==
+    CASE g.kind = "mom" -> Moment(g.poly, dist).a
+      [] g.kind = "central" -> Central(g.poly, g.k, dist).a
+      [] g.kind = "cumulant" -> Cumulant(g.poly, g.k, dist).a
+RECURSIVE GoalMono(_, _, _)
+GoalMono(e, gv, j) == IF j > Len(e) THEN ROne ELSE RMul(RPow(gv[j], e[j]), GoalMono(e, gv, j + 1))
+RECURSIVE PolyInGoals(_, _, _)
+PolyInGoals(terms, gv, t) ==
+    IF t > Len(terms) THEN RZero
+    ELSE RAdd(RMul(RFromZ(terms[t].c), GoalMono(terms[t].e, gv, 1)), PolyInGoals(terms, gv, t + 1))
+
 \* claims about the state after nn iterations; old = distributions before the
 \* last iteration (only meaningful for nn > 0), new = after it.
 Clause(i, cl, nn, old, new, seen) ==
@@ -137,6 +149,12 @@ Clause(i, cl, nn, old, new, seen) ==
                 ELSE LET pr == FoldSet(LAMBDA r, acc : IF SCmp(Eval(cl.poly, r.s), cl.thr) > 0
                                                           THEN SAdd(acc, r.w) ELSE acc, SZero, d).a
                      IN  IF RCmpFrac(pr, cl.p, cl.q) >= 0 THEN OK ELSE Bad(i, cl, nn, pr)
+      [] cl.t = "inv" ->          \* a polynomial (integer coefficients) in the goal quantities vanishes
+            LET gv == [j \in 1..Len(cl.goals) |-> GoalVal(cl.goals[j], new[cl.pi])]
+                val == PolyInGoals(cl.terms, gv, 1)
+            IN  IF val = RZero THEN OK ELSE Bad(i, cl, nn, val)
+      [] cl.t = "goalvals" ->     \* report the goal quantities as the semantics has them (no check)
+            Bad(i, cl, nn, [j \in 1..Len(cl.goals) |-> GoalVal(cl.goals[j], new[cl.pi])])
       [] cl.t = "value" ->        \* report E[poly] (no check): lets the harness read the semantics
             Bad(i, cl, nn, Moment(cl.poly, new[cl.pi]))
       [] OTHER -> Bad(i, cl, nn, "unknown clause")
